@@ -34,14 +34,14 @@ RULE_TEXT = (
 _GROUP_NONEMPTY = ("a sqlparse token group (Function / Identifier / Parenthesis) is never empty, so its last token exists", None)
 _STMT_WRAPS_ONE = ("a sqlfluff `statement` node wraps exactly one child statement segment (StatementSegment grammar is a single OneOf)", "statement-wraps-one")
 ALLOW = {
-    "parser.sqlfluff.utils.extract_identifier:list_child_segments():index:-1": ("an alias_expression / identifier-bearing segment has at least one non-negligible child (the identifier itself)", "alias-nonempty"),
-    "parser.sqlfluff.utils.extract_column_qualifier:list_child_segments():index:-1": ("a column_reference has at least one identifier child (Delimited, min 1)", "reference-nonempty"),
+    "extract_identifier:list_child_segments():index:-1": ("an alias_expression / identifier-bearing segment has at least one non-negligible child (the identifier itself)", "alias-nonempty"),
+    "extract_column_qualifier:list_child_segments():index:-1": ("a column_reference has at least one identifier child (Delimited, min 1)", "reference-nonempty"),
     "BaseExtractor._list_table_from_from_clause_or_join_clause:.segments:index:-1": ("a file_reference has at least one child (its path literal)", "reference-nonempty"),
     "SqlParseColumn._extract_source_columns:.tokens:index:-1": _GROUP_NONEMPTY,
-    "parser.sqlparse.utils.get_subquery_parentheses:.tokens:index:-1": _GROUP_NONEMPTY,
-    "parser.sqlparse.utils.get_parameters:.tokens:index:-1": _GROUP_NONEMPTY,
+    "get_subquery_parentheses:.tokens:index:-1": _GROUP_NONEMPTY,
+    "get_parameters:.tokens:index:-1": _GROUP_NONEMPTY,
     "SwapPartitionHandler.handle:.tokens:index:-1": _GROUP_NONEMPTY,
-    "parser.sqlparse.utils.remove_parenthesis_between_union:[list]:index:-1": ("`offsets` is created as the non-empty list [-1] and only ever appended to", None),
+    "remove_parenthesis_between_union:[list]:index:-1": ("`offsets` is created as the non-empty list [-1] and only ever appended to", None),
     "LineageRunner.__str__:statements():index:cross-sequence": ("holders and statements are index-aligned: exactly one holder is appended per statement on every non-raising path (rule R05.1)", None),
     "lazy_method.<locals>.wrapper:param:args:index:0": ("decorator wrapper of bound methods: args[0] is self by construction of the call", None),
     # the parse-and-validate routine is a private helper of both entry points (absorbed by the normaliser): one site per entry point
@@ -49,7 +49,7 @@ ALLOW = {
     "SqlFluffLineageAnalyzer.analyze:.segments:index:0": _STMT_WRAPS_ONE,
     "SqlFluffTable.of:.segments:index:0": ("an object/table reference node has at least one identifier child (ObjectReferenceSegment is Delimited(identifier, min 1))", "reference-nonempty"),
     "SqlFluffTable.of:.segments:index:i+1": ("dot_idx ranges over range(len(segments) - 2, -1, -1), so dot_idx + 1 <= len(segments) - 1", None),
-    "parser.sqlfluff.utils.is_subquery:.segments:index:0": ("a from_expression_element has at least one child (grammar: table expression is mandatory)", "fee-nonempty"),
+    "is_subquery:.segments:index:0": ("a from_expression_element has at least one child (grammar: table expression is mandatory)", "fee-nonempty"),
     "BaseExtractor._list_table_from_from_clause_or_join_clause:[list]|list_child_segments():index:0": ("a from_expression_element has at least one non-keyword child (its table expression)", "fee-nonempty"),
     "MergeExtractor.extract:list_child_segments():index:i+1": ("the merge_statement grammar requires the join condition and match clauses after the USING source, so a bracketed source is never the last child", "merge-source-not-last"),
     "SqlParseLineageAnalyzer.analyze:token_first():optional-deref": ("statements reach analyze() only through split(), which keeps only pieces with a non-comment first token (rule R05.2)", None),
@@ -97,7 +97,7 @@ def rules(ctx: Ctx) -> None:
             if not isinstance(n, ast.Raise):
                 continue
             n_raise += 1
-            owner = f"{f.cls.name}.{f.name}" if f.cls else f.qual.split(".", 2)[-1]
+            owner = f.owner
             where = loc(f.mod, n)
             if n.exc is None:
                 ctx.ob("R10.1", f"raise-in-family:{owner}:re-raise", True, where, "bare re-raise", trivial=True)
@@ -315,7 +315,18 @@ def rules(ctx: Ctx) -> None:
         ok = cond is not None and bool(warns) and not acfg.reach(cond.id, c.id, avoid=warns)
         ctx.ob("R10.5", "silent-skip-always-warns", ok, f"{analyze.mod.path}:{c.lineno}", "every path from the silent-mode test to the skip emits a warning")
         facts = acfg.facts_at(c.id)
-        foreign = [t for t, p in facts if "silent" not in t and "can_extract" not in t and "statement_segments" not in t and "tsql_split_cache" not in t]
+        def _about_dispatch(t: str) -> bool:
+            """the fact only says that no extractor accepts the statement type (however the search for one is written)"""
+            try:
+                e = ast.parse(t, mode="eval").body
+            except SyntaxError:
+                return False
+            for x in ast.walk(e):
+                if isinstance(x, ast.Name) and any(isinstance(k, ast.Call) and isinstance(k.func, ast.Attribute) and k.func.attr == "can_extract" for k in prog.influences(analyze, x)):
+                    return True
+            return False
+
+        foreign = [t for t, p in facts if "silent" not in t and "can_extract" not in t and "statement_segments" not in t and "tsql_split_cache" not in t and not _about_dispatch(t)]
         ctx.ob("R10.5", "silent-skip-unconditional", not foreign, f"{analyze.mod.path}:{c.lineno}", "the skip depends on silent mode only" + (f" (also on `{foreign[0]}`)" if foreign else ""))
     # the non-silent alternative raises UnsupportedStatementException
     uns = prog.cls("exceptions.UnsupportedStatementException")
